@@ -247,6 +247,32 @@ def make_classes():
         def t_cls(cls, q, r=1):
             return (cls.__name__, q, r)
 
+        # the same conversions written as two stacked modifiers and as one, under a forger that needs the instance
+        @specifiers.forwards_to_method('target')
+        @modifiers.kwoargs('b')
+        @modifiers.kwoargs('c')
+        def st_two(self, a, b=1, c=2, *args, **kwargs):
+            return (self.tag, a, b, c) + getattr(self, 'tar' + 'get')(*args, **kwargs)
+
+        @specifiers.forwards_to_method('target')
+        @modifiers.kwoargs('b', 'c')
+        def st_one(self, a, b=1, c=2, *args, **kwargs):
+            return (self.tag, a, b, c) + getattr(self, 'tar' + 'get')(*args, **kwargs)
+
+        # start= / end= forms stacked in both orders, and what Python itself makes of the result
+        @modifiers.posoargs(end='a')
+        @modifiers.kwoargs(start='c')
+        def se_pk(self, a, b, c, d):
+            return (self.tag, a, b, c, d)
+
+        @modifiers.kwoargs(start='c')
+        @modifiers.posoargs(end='a')
+        def se_kp(self, a, b, c, d):
+            return (self.tag, a, b, c, d)
+
+        def se_ref(self, a, /, b, *, c, d):
+            return (self.tag, a, b, c, d)
+
     class Sub(K):
         pass
     return K, Sub
@@ -438,6 +464,27 @@ def owner_checks(st):
                          {'operation': 'sigtools.signature(<owner>.%s)' % m, 'by_owner': dict((k_, repr(v)[:120]) for k_, v in sigs.items())},
                          {'op': 'owner-signature', 'method': m})
         st.seen('obs', ('owner', m, tuple(sorted(sigs.items()))))
+    # stacked modifiers bound to an instance: equal to the single-modifier spelling / to each other / to the native def
+    for label, owner in owners[1::2]:
+        groups = (('st_two', 'st_one'), ('se_pk', 'se_kp', 'se_ref'))
+        calls = [((1,), {}), ((1, 2), {}), ((1, 2, 3), {}), ((1, 2, 3, 4), {}), ((1,), {'b': 5}), ((1, 9), {'b': 5, 'c': 6}),
+                 ((1, 2), {'c': 3, 'd': 4}), ((1,), {'b': 2, 'c': 3, 'd': 4}), ((), {'a': 1, 'b': 2, 'c': 3, 'd': 4}),
+                 ((1, 7, 8), {'b': 5, 'c': 6})]
+        for group in groups:
+            obs = {}
+            for m in group:
+                st.inc('transitions')
+                bound = safe(lambda: getattr(owner, m))
+                if bound[0] != 'ok':
+                    obs[m] = bound
+                    continue
+                obs[m] = (safe(lambda: str(sigtools.signature(bound[1]))), safe(lambda: bound[1].__self__ is owner),
+                          tuple(safe(lambda a=a, k=k: bound[1](*a, **k))[:2] for a, k in calls))
+            if len(set(obs.values())) != 1:
+                st.violation('modifier-order-dependence', {'part': 'B', 'history': [], 'op': ['stacked-bound', group[0], label]},
+                             {'operation': 'bound through %s' % label, 'methods': list(group),
+                              'observed': dict((m, repr(v)[:400]) for m, v in obs.items())}, {'op': 'stacked-bound', 'method': group[0]})
+            st.seen('obs', ('stacked-bound', group, label, repr(sorted(obs.items()))[:200]))
 
 
 def b_shard(tier, sh):
